@@ -161,3 +161,27 @@ pub fn scan(arch: &Path) -> Vec<String> {
     }
     problems
 }
+
+
+/// (apath, mtime, mtime_nanos) of every entry recorded in one band, decoded independently of conserve.
+pub fn recorded_mtimes(arch: &Path, band: &str) -> Vec<Value> {
+    let mut out = Vec::new();
+    let mut files: Vec<std::path::PathBuf> = Vec::new();
+    if let Ok(subs) = std::fs::read_dir(arch.join(band).join("i")) {
+        for sub in subs.flatten() {
+            for f in std::fs::read_dir(sub.path()).into_iter().flatten().flatten() {
+                files.push(f.path());
+            }
+        }
+    }
+    files.sort();
+    for f in files {
+        let raw = std::fs::read(&f).unwrap_or_default();
+        if let Some(entries) = snap::raw::Decoder::new().decompress_vec(&raw).ok().and_then(|d| serde_json::from_slice::<Vec<Value>>(&d).ok()) {
+            for e in entries {
+                out.push(serde_json::json!([e["apath"], e["mtime"], e["mtime_nanos"].as_u64().unwrap_or(0)]));
+            }
+        }
+    }
+    out
+}
